@@ -15,11 +15,13 @@ impl VariableUse {
     pub fn new(meta: &Meta, name: &VariableName, access: &[AccessType]) -> VariableUse {
         // The cached variable use of the node is not part of the use: the node's
         // cache would otherwise contain a copy of its previous contents each
-        // time it is recomputed.
+        // time it is recomputed. The same goes for the nodes of the index
+        // expressions: each level of a nested access `a[a[..]]` would otherwise
+        // copy the caches of all the levels below it.
         VariableUse {
             meta: meta.without_variable_knowledge(),
             name: name.clone(),
-            access: access.to_owned(),
+            access: access.iter().map(AccessType::without_variable_knowledge).collect(),
         }
     }
 
